@@ -808,7 +808,8 @@ impl Buffer {
                     for cy in 0..cur_font_size.height.min(font_size.height) {
                         for cx in 0..cur_font_size.width.min(font_size.width) {
                             let offset = ((x * font_size.width + cx) * 4 + (y * font_size.height + cy) * line_bytes) as usize;
-                            if glyph.data[cy as usize] & (128 >> cx) == 0 {
+                            // a glyph row holds 8 pixels: the further columns of a wider font are background
+                            if cx >= 8 || glyph.data[cy as usize] & (128 >> cx) == 0 {
                                 pixels[offset] = b_r;
                                 pixels[offset + 1] = b_g;
                                 pixels[offset + 2] = b_b;
